@@ -26,9 +26,15 @@ type (
 	MyBool  bool
 	myPair  struct{ A, B int }
 	MyErr   struct{ msg string }
+	// error-implementing types that are not the error interface: the library accepts them as error results; the
+	// statement does not say what a zero value of them means, so only "never panics, runs once" is demanded
+	Errno     int
+	ErrStruct struct{ Code int }
 )
 
-func (e *MyErr) Error() string { return e.msg }
+func (e *MyErr) Error() string    { return e.msg }
+func (e Errno) Error() string     { return fmt.Sprintf("errno %d", int(e)) }
+func (e ErrStruct) Error() string { return fmt.Sprintf("code %d", e.Code) }
 
 var c16Types = map[string]reflect.Type{
 	"int": reflect.TypeOf(int(0)), "int8": reflect.TypeOf(int8(0)), "int16": reflect.TypeOf(int16(0)), "int32": reflect.TypeOf(int32(0)), "int64": reflect.TypeOf(int64(0)),
@@ -36,7 +42,7 @@ var c16Types = map[string]reflect.Type{
 	"bool": reflect.TypeOf(false), "string": reflect.TypeOf(""),
 	"MyInt": reflect.TypeOf(MyInt(0)), "MyInt8": reflect.TypeOf(MyInt8(0)), "MyFloat": reflect.TypeOf(MyFloat(0)), "MyStr": reflect.TypeOf(MyStr("")), "MyBool": reflect.TypeOf(MyBool(false)),
 	"struct": reflect.TypeOf(myPair{}), "slice": reflect.TypeOf([]int(nil)), "ptr": reflect.TypeOf((*int)(nil)), "iface": reflect.TypeOf((*any)(nil)).Elem(),
-	"error": reflect.TypeOf((*error)(nil)).Elem(), "MyErrPtr": reflect.TypeOf((*MyErr)(nil)),
+	"error": reflect.TypeOf((*error)(nil)).Elem(), "MyErrPtr": reflect.TypeOf((*MyErr)(nil)), "Errno": reflect.TypeOf(Errno(0)), "ErrStruct": reflect.TypeOf(ErrStruct{}),
 	"chanerr": reflect.TypeOf((chan error)(nil)), "rchanerr": reflect.TypeOf((<-chan error)(nil)), "chanint": reflect.TypeOf((chan int)(nil)),
 	"func": reflect.TypeOf(func() {}),
 }
@@ -97,7 +103,11 @@ func isValueType(name string) bool {
 	return in(c16Predeclared, name) || in(c16Named, name)
 }
 
-func isErrorType(name string) bool { return name == "error" || name == "MyErrPtr" }
+func isErrorType(name string) bool { return name == "error" || isLooseErrorType(name) }
+
+func isLooseErrorType(name string) bool {
+	return name == "MyErrPtr" || name == "Errno" || name == "ErrStruct"
+}
 
 // expectation about registration: "refuse", "accept" or "" (the statement does not decide)
 func (c c16Case) registration() string {
@@ -105,8 +115,13 @@ func (c c16Case) registration() string {
 		return "refuse"
 	}
 	allPlain := true
+	for _, o := range c.Out {
+		if isLooseErrorType(o) {
+			return "" // accepted by the library today; the statement's type pool does not decide
+		}
+	}
 	for _, p := range c.In {
-		if in(c16BadParam, p) || p == "MyErrPtr" || p == "rchanerr" {
+		if in(c16BadParam, p) || isLooseErrorType(p) || p == "rchanerr" {
 			return "refuse"
 		}
 		if !in(c16Predeclared, p) {
@@ -253,6 +268,10 @@ func (c c16Case) build(p *c16Probe) any {
 				if c.Fail {
 					res[i] = reflect.ValueOf(&MyErr{"boom"})
 				}
+			case t == "Errno":
+				res[i] = reflect.ValueOf(Errno(5))
+			case t == "ErrStruct":
+				res[i] = reflect.ValueOf(ErrStruct{7})
 			case t == "chanerr" || t == "rchanerr":
 				ch := make(chan error, 1)
 				if c.Fail {
@@ -441,6 +460,14 @@ func runC16(c c16Case) Verdict {
 		}
 	}
 	// result
+	for _, o := range c.Out {
+		if isLooseErrorType(o) {
+			if ev.K != "err" && ev.K != "line" {
+				return failf("%s: unexpected outcome %s", desc, ev)
+			}
+			return Verdict{NonTrivial: true, Classes: append(cls, "invoked", "error-like-result-type")}
+		}
+	}
 	canFail := false
 	for _, o := range c.Out {
 		if isErrorType(o) || o == "chanerr" || o == "rchanerr" {
@@ -511,9 +538,9 @@ func genC16(t *rapid.T) c16Case {
 	c.Variadic = n > 0 && rapid.IntRange(0, 3).Draw(t, "variadic") == 0
 	if kind == "function" {
 		c.Out = rapid.SampledFrom([][]string{{}, {"int"}, {"float64"}, {"string"}, {"bool"}, {"error"}, {"int", "error"}, {"string", "error"}, {"MyInt"}, {"MyStr", "error"}, {"MyFloat"}, {"MyBool"},
-			{"int8"}, {"float32", "error"}, {"struct"}, {"slice"}, {"int", "int"}, {"error", "int"}, {"int", "string", "error"}, {"chanerr"}, {"uint"}, {"iface"}, {"ptr", "error"}}).Draw(t, "out")
+			{"int8"}, {"float32", "error"}, {"MyErrPtr"}, {"int", "MyErrPtr"}, {"Errno"}, {"string", "Errno"}, {"ErrStruct"}, {"int", "ErrStruct"}, {"struct"}, {"slice"}, {"int", "int"}, {"error", "int"}, {"int", "string", "error"}, {"chanerr"}, {"uint"}, {"iface"}, {"ptr", "error"}}).Draw(t, "out")
 	} else {
-		c.Out = rapid.SampledFrom([][]string{{}, {}, {"error"}, {"error"}, {"chanerr"}, {"rchanerr"}, {"int"}, {"string"}, {"struct"}, {"chanint"}, {"error", "error"}, {"int", "error"}, {"ptr"}, {"func"}}).Draw(t, "out")
+		c.Out = rapid.SampledFrom([][]string{{}, {}, {"error"}, {"error"}, {"chanerr"}, {"rchanerr"}, {"MyErrPtr"}, {"Errno"}, {"ErrStruct"}, {"int"}, {"string"}, {"struct"}, {"chanint"}, {"error", "error"}, {"int", "error"}, {"ptr"}, {"func"}}).Draw(t, "out")
 	}
 	// script-side arguments: mostly fitting, sometimes off by count or type
 	nFixed := len(c.In)
